@@ -68,7 +68,11 @@ def run_case(spec):
     counters = {'cases': 1}
     try:
         paths = cv.write_case(case, wd)
-        fa, _ = cvmon.execute(case, wd, paths, out='base.fasta')
+        try:
+            fa, _ = cvmon.execute(case, wd, paths, out='base.fasta')
+        except Exception:
+            # the base run itself crashes on this input: nothing to compare (crashes on valid input are decided by C01)
+            return {'nontrivial': False, 'counters': {'cases': 1, 'base_run_crashed': 1}}
         base = {s for _, s in fa}
         counters['base_peptides'] = len(base)
         recs = case.recs()
